@@ -60,7 +60,7 @@ type cModel struct {
 	by        map[string]map[uint64]bool // committees that slashed the validator in the current block (any protocol)
 	unstakeBl uint64
 	// statistics
-	accepted, rejectedRepeat, rejectedDupInList, capped, skippedUnknown, crossCommittee int
+	accepted, rejectedRepeat, rejectedDupInList, capped, skippedUnknown, crossCommittee, bursts, failingBetween int
 }
 
 func (m *cModel) v2(h uint64) bool { return m.v2From != ^uint64(0) && h >= m.v2From }
@@ -288,15 +288,6 @@ func (m *cModel) check(c *chainsim.Chain, h uint64, evs []*lib.Event, pre map[st
 		if sv == nil {
 			continue
 		}
-		if sv.StakedAmount != v.stake {
-			return fmt.Errorf("validator v%d: stake %d, model %d (before the block %d)", v.key, sv.StakedAmount, v.stake, pre[a])
-		}
-		got, want := append([]uint64(nil), sv.Committees...), append([]uint64(nil), v.committees...)
-		sort.Slice(got, func(i, j int) bool { return got[i] < got[j] })
-		sort.Slice(want, func(i, j int) bool { return want[i] < want[j] })
-		if fmt.Sprint(got) != fmt.Sprint(want) {
-			return fmt.Errorf("validator v%d: committees %v, model %v", v.key, got, want)
-		}
 		// property text, independent of the exact model arithmetic: under protocol >= 2 the stake lost in one block is bounded
 		// by the caps of the committees that slashed the validator (floor rounding of every single slash: 1 unit each)
 		if m.v2(h) && pre[a] > sv.StakedAmount {
@@ -310,6 +301,15 @@ func (m *cModel) check(c *chainsim.Chain, h uint64, evs []*lib.Event, pre map[st
 			if lost.Cmp(bound) > 0 {
 				return fmt.Errorf("validator v%d lost %s of %d in one block, more than the cap %d%% of %d committee(s) allows (%s)", v.key, lost.FloatString(0), pre[a], m.maxPct, len(m.capUsed[a]), bound.FloatString(2))
 			}
+		}
+		if sv.StakedAmount != v.stake {
+			return fmt.Errorf("validator v%d: stake %d, model %d (before the block %d)", v.key, sv.StakedAmount, v.stake, pre[a])
+		}
+		got, want := append([]uint64(nil), sv.Committees...), append([]uint64(nil), v.committees...)
+		sort.Slice(got, func(i, j int) bool { return got[i] < got[j] })
+		sort.Slice(want, func(i, j int) bool { return want[i] < want[j] })
+		if fmt.Sprint(got) != fmt.Sprint(want) {
+			return fmt.Errorf("validator v%d: committees %v, model %v", v.key, got, want)
 		}
 	}
 	// the real index
@@ -372,6 +372,7 @@ func TestC14bSlashApplication(t *testing.T) {
 		c2H := uint64(0)
 		nBlocks := rapid.IntRange(5, 12).Draw(t, "blocks")
 		unstaked := false
+		fresh := uint64(0)
 		for b := 0; b < nBlocks; b++ {
 			h := c.Height()
 			m.tracker, m.slashes, m.capUsed, m.by = map[string]map[uint64]uint64{}, map[string]int{}, map[string]map[uint64]bool{}, map[string]map[uint64]bool{}
@@ -412,11 +413,9 @@ func TestC14bSlashApplication(t *testing.T) {
 						unstaked = true
 					}
 				}
-				nCert := rapid.IntRange(0, 2).Draw(t, "nCert")
-				for i := 0; i < nCert; i++ {
-					list, d := m.genList(t, h, ownSlashed)
+				// addCert appends one committee-2 certificate-results transaction and mirrors it on the model
+				addCert := func(list []*lib.DoubleSigner, d string, mode int) bool {
 					opts := chainsim.CertOpts{Height: c2H + 1, RootHeight: h}
-					mode := rapid.IntRange(0, 11).Draw(t, "certMode")
 					label, ok := "c2", true
 					switch mode {
 					case 0:
@@ -432,7 +431,7 @@ func TestC14bSlashApplication(t *testing.T) {
 					tx, _, err := c.SignedCertResultsTx(2, &lib.CertificateResult{SlashRecipients: &lib.SlashRecipients{DoubleSigners: list}}, opts)
 					if err != nil {
 						ec.Class("committee2-unavailable")
-						break
+						return false
 					}
 					if ok {
 						snap := m.snapshotTracker()
@@ -451,6 +450,60 @@ func TestC14bSlashApplication(t *testing.T) {
 						}
 					}
 					txs, expect, descs = append(txs, tx), append(expect, ok), append(descs, fmt.Sprintf("%s@%d[%s]", label, opts.Height, d))
+					return true
+				}
+				// addFailing appends a transaction that passes CheckTx and fails when applied (rolled back: it must leave no trace,
+				// in particular not in the per-block slash budget of the transactions before and after it)
+				addFailing := func() {
+					k := rapid.IntRange(0, 2).Draw(t, "failingSender")
+					to := chainsim.Addr(vkeys.BLS(45))
+					tx, _, err := c.SignTx(vkeys.BLS(k), &fsm.MessageSend{FromAddress: chainsim.Addr(vkeys.BLS(k)), ToAddress: to, Amount: 1 << 50}, 10000, h, "")
+					if err != nil {
+						t.Fatalf("sign: %v", err)
+					}
+					txs, expect, descs = append(txs, tx), append(expect, false), append(descs, fmt.Sprintf("send-without-funds v%d", k))
+					m.failingBetween++
+				}
+				if rapid.IntRange(0, 9).Draw(t, "burst") < 4 {
+					// burst: the same committee slashes the same validator in 2-4 transactions of one block (fresh evidence heights),
+					// with failing transactions in between: together they must respect the per-block cap
+					victim := rapid.IntRange(1, 3).Draw(t, "victim")
+					n := rapid.IntRange(2, 4).Draw(t, "burstLen")
+					for i := 0; i < n; i++ {
+						fresh++
+						hs := []uint64{100_000 + fresh}
+						list := []*lib.DoubleSigner{{Id: vkeys.BLS(victim).PublicKey().Bytes(), Heights: hs}}
+						d := fmt.Sprintf("v%d@%v", victim, hs)
+						if rapid.IntRange(0, 3).Draw(t, "burstExtra") == 0 {
+							more, md := m.genList(t, h, nil)
+							list, d = append(list, more...), d+" "+md
+						}
+						if !addCert(list, d, 99) {
+							break
+						}
+						if i < n-1 {
+							switch rapid.IntRange(0, 3).Draw(t, "between") {
+							case 0, 1:
+								addFailing()
+							case 2:
+								l2, d2 := m.genList(t, h, nil)
+								addCert(l2, d2, rapid.IntRange(0, 1).Draw(t, "badCert"))
+								m.failingBetween++
+							}
+						}
+					}
+					m.bursts++
+				} else {
+					nCert := rapid.IntRange(0, 2).Draw(t, "nCert")
+					for i := 0; i < nCert; i++ {
+						list, d := m.genList(t, h, ownSlashed)
+						if !addCert(list, d, rapid.IntRange(0, 11).Draw(t, "certMode")) {
+							break
+						}
+						if rapid.IntRange(0, 3).Draw(t, "failAfter") == 0 {
+							addFailing()
+						}
+					}
 				}
 			}
 			spec := chainsim.BlockSpec{Txs: txs}
@@ -529,6 +582,8 @@ func TestC14bSlashApplication(t *testing.T) {
 		ec.ClassIf(m.crossCommittee > 0, "two-committees-slash-one-validator-in-one-block")
 		ec.ClassIf(m.skippedUnknown > 0, "unknown-or-removed-validator")
 		ec.ClassIf(m.accepted > 0, "slash-applied")
+		ec.ClassIf(m.bursts > 0, "one-committee-slashes-one-validator-in-several-txs-of-a-block")
+		ec.ClassIf(m.failingBetween > 0, "failing-tx-between-slashing-txs")
 		switch m.v2From {
 		case 0:
 			ec.Class("protocol=2")
